@@ -34,6 +34,7 @@ from biom.cli.metadata_adder import (_add_metadata, _float, _int, _split_on_semi
 from biom.parse import MetadataMap
 
 from . import tables
+from .clirun import biom as run_biom
 from .core import REPO
 
 ID = 'C18'
@@ -270,8 +271,8 @@ def run_impl(c):
             t = tables.build(c['spec'])
             o = c['opts']
             try:
-                if c.get('via') == 'subprocess':
-                    r = cli_subprocess(t, c, tmp)
+                if c.get('via') in ('subprocess', 'command'):
+                    r = cli_command(t, c, tmp)
                 else:
                     sm = None if c['samp'] is None else feed(c['samp'], c.get('via', 'handle'), tmp)
                     om = None if c['obs'] is None else feed(c['obs'], c.get('via', 'handle'), tmp)
@@ -284,8 +285,12 @@ def run_impl(c):
                     for fh in (sm, om):
                         if hasattr(fh, 'close'):
                             fh.close()
-                return snap(r)
+                sn = snap(r)
+                if '_written' in c:
+                    sn['file'] = c.pop('_written')          # the format the command really wrote
+                return sn
             except Exception as e:
+                c.pop('_written', None)
                 return err(e)
         raise ValueError(k)
     except Exception as e:  # pragma: no cover
@@ -352,12 +357,20 @@ def run_prog(c):
     return out
 
 
-def cli_subprocess(t, c, tmp):
+def cli_command(t, c, tmp):
+    """the real `biom add-metadata` command (click wrapper included): in process ('command') or in a
+    fresh interpreter ('subprocess'); input as JSON or HDF5 file, output JSON (--output-as-json) or HDF5"""
+    io_ = c.get('io') or {'src': 'json', 'out': 'json'}
     src = os.path.join(tmp, 'src.biom')
-    with open(src, 'w', encoding='utf-8') as fh:
-        fh.write(t.to_json('c18'))
+    if io_['src'] == 'json':
+        with open(src, 'w', encoding='utf-8') as fh:
+            fh.write(t.to_json('c18'))
+    else:
+        import h5py
+        with h5py.File(src, 'w') as fh:
+            t.to_hdf5(fh, 'c18')
     out = os.path.join(tmp, 'out.biom')
-    args = ['add-metadata', '-i', src, '-o', out, '--output-as-json']
+    args = ['add-metadata', '-i', src, '-o', out] + (['--output-as-json'] if io_['out'] == 'json' else [])
     o = c['opts']
     if c['samp'] is not None:
         args += ['-m', feed(c['samp'], 'path', tmp)]
@@ -370,12 +383,23 @@ def cli_subprocess(t, c, tmp):
         args += ['--sample-header', ','.join(c['samp_header'])]
     if c['obs_header']:
         args += ['--observation-header', ','.join(c['obs_header'])]
-    env = dict(os.environ, PYTHONPATH=REPO, PYTHONIOENCODING='utf-8', LC_ALL='C.UTF-8', LANG='C.UTF-8')
-    r = subprocess.run([sys.executable, '-W', 'ignore', '-c', 'from biom.cli import cli; cli()'] + args,
-                       env=env, stdout=subprocess.PIPE, stderr=subprocess.PIPE, timeout=120)
-    if r.returncode != 0:
-        raise RuntimeError(r.stderr.decode('utf-8', 'replace')[-300:])
+    run_biom(args, 'inproc' if c['via'] == 'command' else 'subprocess')
+    import h5py
+    c['_written'] = 'hdf5' if h5py.is_hdf5(out) else 'json'
     return load_table(out)
+
+
+def hdf5_ok(spec):
+    """metadata an HDF5 file carries unchanged: per axis none, or the same string-valued keys for every id"""
+    for key in ('omd', 'smd'):
+        md = norm_md(spec.get(key))
+        if md is None:
+            continue
+        if len(set(tuple(sorted(e)) for e in md)) != 1 or not md[0]:
+            return False
+        if any(not isinstance(v, str) for e in md for v in e.values()):
+            return False
+    return True
 
 
 # ------------------------------------------------------------------ model side
@@ -427,11 +451,12 @@ def decode(tree, c):
         return dec_table(tree[-1][0])
     if k in ('add', 'del', 'cli'):
         r = dec_result(tree, dec_table)
-        if k == 'cli' and c.get('via') == 'subprocess' and isinstance(r, dict):
+        if k == 'cli' and c.get('via') in ('subprocess', 'command') and isinstance(r, dict):
             # the result went through a BIOM file: all-empty metadata is written as null
             for key in ('omd', 'smd'):
                 if r[key] is not None and all(not e for e in r[key]):
                     r[key] = None
+            r['file'] = (c.get('io') or {'out': 'json'})['out']
         return r
     if k == 'prog':
         return [[dec_table(t) for t in state] for state in tree]
@@ -524,6 +549,8 @@ def oracle(c, obs):
             return []
         if not isinstance(obs, dict):
             return ['add-metadata failed on well-formed input: %r' % (obs,)]
+        if 'file' in obs and obs['file'] != (c.get('io') or {'out': 'json'})['out']:
+            fails.append('add-metadata wrote a %s file, --output-as-json was %s' % (obs['file'], 'given' if c['io']['out'] == 'json' else 'not given'))
         spec = copy.deepcopy(c['spec'])
         check_same(fails, 'observation ids', obs['oids'], list(spec['oids']))
         check_same(fails, 'sample ids', obs['sids'], list(spec['sids']))
@@ -878,8 +905,8 @@ def gen_maptext(rng):
     return {'kind': 'maptext', 'lines': lines, 'sq': c['sq'], 'ss': c['ss'], 'header': c['header'], 'opts': c['opts']}
 
 
-def gen_cli(rng, via=None):
-    spec = gen_spec(rng)
+def gen_cli(rng, via=None, hdf5=False):
+    spec = gen_spec(rng) if not hdf5 else tables.rand_spec(rng, md=rng.choice(['none', 'group', 'text', 'obs', 'samp']), ttype=None)
     c = {'kind': 'cli', 'spec': spec, 'samp': None, 'obs': None, 'samp_header': None, 'obs_header': None,
          'opts': {'sc': [], 'pipe': [], 'int': [], 'float': []}, 'via': via or rng.choice(['handle', 'lines', 'path']), 'wf': True}
     which = rng.choice(['sample', 'observation', 'both', 'both'])
@@ -888,7 +915,7 @@ def gen_cli(rng, via=None):
     for ax, ids_key in (('sample', 'sids'), ('observation', 'oids')):
         if which not in (ax, 'both'):
             continue
-        ids = [i for i in spec[ids_key] if rng.random() < 0.7] + (['unknown1'] if rng.random() < 0.4 else [])
+        ids = [i for i in spec[ids_key] if hdf5 or rng.random() < 0.7] + (['unknown1'] if rng.random() < 0.4 else [])
         ids = [i for i in dict.fromkeys(ids) if '"' not in i and '\t' not in i and i == i.strip() and not i.startswith('#')]
         if not ids:
             ids = ['unknown0']
@@ -905,11 +932,25 @@ def gen_cli(rng, via=None):
             c['wf'] = False
     if which == 'none':
         c['wf'] = False
-    if c['via'] == 'subprocess':
+    if c['via'] in ('subprocess', 'command'):
+        c['io'] = {'src': 'json', 'out': 'json'}
+        if hdf5 and hdf5_ok(spec):
+            c['io']['src'] = rng.choice(['json', 'hdf5'])
+            plain = all('"' not in i and i == i.strip() and not i.startswith('#') for i in spec['oids'] + spec['sids'])
+            full_rows = all(len(b) >= len(c['g_' + ax]['names']) if not c[hk] else True
+                            for ax, hk in (('sample', 'samp_header'), ('observation', 'obs_header')) if 'g_' + ax in c
+                            for kk, b in c['g_' + ax]['items'] if kk == 'r')
+            names = [n for ax in ('sample', 'observation') if 'g_' + ax in c for n in c['g_' + ax]['names']] + \
+                    (c['samp_header'] or []) + (c['obs_header'] or [])
+            special = any(n in ('taxonomy', 'KEGG_Pathways', 'collapsed_ids') for n in names)
+            # an HDF5 file carries a column only if all its values have one type: text columns only
+            if plain and c['wf'] and not any(c['opts'].values()) and not special:
+                c['io']['out'] = 'hdf5'
+    if c['via'] in ('subprocess', 'command'):
         # the command line joins names with ',' and needs a table that survives JSON
         names = [n for k in c['opts'] for n in c['opts'][k]] + (c['samp_header'] or []) + (c['obs_header'] or [])
         if any(',' in n for n in names) or which == 'none':
-            return gen_cli(rng, via)
+            return gen_cli(rng, via, hdf5)
     return c
 
 
@@ -1002,6 +1043,9 @@ def gen(rng, tier):
         yield gen_cli(rng)
     for _ in range(150 * n):
         yield gen_prog(rng)
+    # the real command (click wrapper + option forwarding), in process, in every tier
+    for i in range(60 * n):
+        yield gen_cli(rng, 'command', hdf5=(i % 3 == 0))
     if tier == 'thorough':
         for _ in range(40):
             yield gen_cli(rng, 'subprocess')
@@ -1071,6 +1115,13 @@ def classify(c):
     if k == 'cli':
         tags.append('files:%s%s' % ('s' if c['samp'] is not None else '-', 'o' if c['obs'] is not None else '-'))
         tags.append('via:' + c['via'])
+        if c.get('io'):
+            tags.append('cli-io:%s->%s' % (c['io']['src'], c['io']['out']))
+        for name, flag in (('sc', 'sc'), ('pipe', 'pipe'), ('int', 'int'), ('float', 'float')):
+            if c['opts'][name] and c.get('via') in ('command', 'subprocess'):
+                tags.append('cli-opt:' + flag)
+        if c.get('via') in ('command', 'subprocess') and (c['samp_header'] or c['obs_header']):
+            tags.append('cli-opt:header')
     return tags
 
 
